@@ -24,7 +24,7 @@ class Untranslatable(Exception):
     pass
 
 
-TOK = re.compile(r"\s*(?:(//[^\n]*)|(0x[0-9a-fA-F]+|\d+)|([A-Za-z_][A-Za-z_0-9]*(?:::[A-Za-z_][A-Za-z_0-9]*)*)|(!=|==|>=|<=|&&|\|\||[-+!<>(){};:,.=\[\]&]))")
+TOK = re.compile(r"\s*(?:(//[^\n]*)|(0x[0-9a-fA-F]+|\d+)|([A-Za-z_][A-Za-z_0-9]*(?:::[A-Za-z_][A-Za-z_0-9]*)*)|(=>|\+=|!=|==|>=|<=|&&|\|\||[-+!<>(){};:,.=\[\]&*]))")
 
 
 def tokenize(src):
@@ -79,10 +79,16 @@ class Parser:
             return ("if", cond, then, els)
         if t == "let":
             self.eat()
+            mut = False
             if self.peek() == "mut":
-                raise Untranslatable("let mut")
+                self.eat()
+                mut = True
             name = self.eat()
             self.eat("=")
+            if mut:
+                e = self.expr()
+                self.eat(";")
+                return ("letmut", name, e)
             if self.peek() == "if":
                 self.eat()
                 cond = self.cond()
@@ -99,11 +105,63 @@ class Parser:
             e = self.expr()
             self.eat(";")
             return ("return", e)
+        if t == "for":
+            self.eat()
+            v = self.eat()
+            self.eat("in")
+            it = self.expr(nostruct=True)
+            body = self.block()
+            return ("for", v, it, body)
+        if t == "match":
+            m = self.match()
+            if self.peek() == ";":
+                self.eat()
+            return ("tail", m) if self.peek() == "}" else ("do", m)
         e = self.expr()
+        if self.peek() == "+=":
+            self.eat()
+            rhs = self.expr()
+            self.eat(";")
+            return ("addassign", e, rhs)
         if self.peek() == ";":
             self.eat()
             return ("do", e)
         return ("tail", e)
+
+    def match(self):
+        self.eat("match")
+        scrut = self.expr(nostruct=True)
+        self.eat("{")
+        arms = []
+        while self.peek() != "}":
+            pat = self.pattern()
+            self.eat("=>")
+            if self.peek() == "{":
+                body = self.block()
+            elif self.peek() == "match":
+                body = [("tail", self.match())]
+            elif self.peek() == "break":
+                self.eat()
+                body = [("break",)]
+            elif self.peek() == "return":
+                self.eat()
+                body = [("return", self.expr())]
+            else:
+                body = [("tail", self.expr())]
+            if self.peek() == ",":
+                self.eat()
+            arms.append((pat, body))
+        self.eat("}")
+        return ("match", scrut, arms)
+
+    def pattern(self):
+        name = self.eat()
+        if self.peek() == "(":
+            self.eat()
+            v = self.eat()
+            self.eat(")")
+            return (name, v)
+        return (name, None)
 
     def cond(self):
         if self.peek() == "let":
@@ -158,6 +216,11 @@ class Parser:
         if self.peek() == "!":
             self.eat()
             return ("not", self.unary(nostruct))
+        if self.peek() in ("&", "*"):       # references and dereferences: values in the model
+            self.eat()
+            return self.unary(nostruct)
+        if self.peek() == "match":
+            return self.match()
         return self.postfix(nostruct)
 
     def postfix(self, nostruct):
@@ -476,10 +539,224 @@ def translate(src):
     return text, missing
 
 
+# ---------------------------------------------------------------- protocol layer (src/protocol.rs)
+
+def protocol_fns(src):
+    """name -> (params text, body text) of the fns in `impl<…> Protocol<…> { … }`"""
+    m = re.search(r"impl\s*<[^{]*>\s*Protocol\s*<[^{]*>\s*\{", src)
+    if not m:
+        return {}
+    i = m.end() - 1
+    depth, j = 0, i
+    while j < len(src):
+        depth += src[j] == "{"
+        depth -= src[j] == "}"
+        if depth == 0:
+            break
+        j += 1
+    impl = src[i + 1:j]
+    out = {}
+    for fm in re.finditer(r"(?:pub\s+)?fn\s+(\w+)\s*(?:<[^>(]*>)?\s*\(", impl):
+        k, depth = fm.end() - 1, 0
+        for e in range(k, len(impl)):
+            depth += impl[e] == "("
+            depth -= impl[e] == ")"
+            if depth == 0:
+                break
+        params = impl[k + 1:e]
+        b = impl.find("{", e)
+        depth = 0
+        for j2 in range(b, len(impl)):
+            depth += impl[j2] == "{"
+            depth -= impl[j2] == "}"
+            if depth == 0:
+                break
+        out[fm.group(1)] = (re.sub(r"\s+", "", params), impl[b:j2 + 1])
+    return out
+
+
+class ProtoTranslator:
+    """translates `tick`, `send_packet`, `remove_packet_handler` with `self` = `s : Proto` (rebound after every effect).
+    Effects: `self.handle_packet(x, b)` = `s.dispatch x b`; `self.interface.try_send_packet(x)` = `s.ifaceSend x`;
+    `self.interface.try_get_packet()` = `s.ifaceGet`; `self.handlers.remove(&id)` = `s.removeKey id`."""
+
+    def expr(self, e, env):
+        k = e[0]
+        if k == "path":
+            p = e[1]
+            if p in (["true"], ["false"]):
+                return (p[0], "bool")
+            if p == ["BROADCAST_ADDRESS"]:
+                return ("BROADCAST", "addr")
+            if p == ["self", "device_address"]:
+                return ("s.addr", "addr")
+            if len(p) == 1 and p[0] in env:
+                return env[p[0]]
+            if len(p) == 2 and p[0] in env and env[p[0]][1] == "packet" and p[1] == "device_address":
+                return ("%s.addr" % env[p[0]][0], "addr")
+            raise Untranslatable("path " + ".".join(p))
+        if k == "bool":
+            a, ta = self.expr(e[2], env)
+            b, tb = self.expr(e[3], env)
+            if (ta, tb) != ("bool", "bool"):
+                raise Untranslatable("connective on %s, %s" % (ta, tb))
+            return ("(%s %s %s)" % (a, e[1], b), "bool")
+        if k == "not":
+            a, ta = self.expr(e[1], env)
+            if ta != "bool":
+                raise Untranslatable("! on " + ta)
+            return ("(!%s)" % a, "bool")
+        if k == "cmp" and e[1] in ("==", "!="):
+            a, ta = self.expr(e[2], env)
+            b, tb = self.expr(e[3], env)
+            if ta != tb or ta not in ("addr", "bool", "u32"):
+                raise Untranslatable("comparison of %s and %s" % (ta, tb))
+            return ("(%s %s %s)" % (a, e[1], b), "bool")
+        raise Untranslatable("expression " + k)
+
+    def result(self, e, env, ind):
+        if e[0] == "match":
+            return self.match(e, env, ind, [])
+        if e[0] == "call" and e[1] == ("path", ["Ok"]) and e[2] == [("unit",)]:
+            return "%s(s, .ok ())" % ind
+        if e[0] == "call" and e[1] == ("path", ["Err"]) and len(e[2]) == 1:
+            a = e[2][0]
+            if a == ("path", ["ProtocolError::NoSuchHandler"]):
+                return "%s(s, .error .noSuchHandler)" % ind
+            if a[0] == "call" and a[1] == ("path", ["ProtocolError::InterfaceError"]) and len(a[2]) == 1 and a[2][0][0] == "path":
+                v = a[2][0][1]
+                if len(v) == 1 and v[0] in env and env[v[0]][1] == "perr":
+                    return "%s(s, .error %s)" % (ind, env[v[0]][0])
+                if len(v) == 1 and v[0] in env and env[v[0]][1] == "iferr_other":
+                    return "%s(s, .error (.interface %s))" % (ind, env[v[0]][0])
+        raise Untranslatable("result expression")
+
+    def match(self, m, env, ind, rest):
+        _, scrut, arms = m
+        pats = {a[0][0]: a for a in arms}
+
+        def arm(name, bind_ty=None):
+            (pn, v), body = pats[name]
+            env2 = dict(env)
+            if v and v != "_" and bind_ty:
+                env2[v] = (v, bind_ty)
+            return v if (v and v != "_") else "_", self.stmts(body + rest, env2, ind + "  ")
+
+        if scrut[0] == "call" and scrut[1] == ("path", ["self", "interface", "try_send_packet"]) and len(scrut[2]) == 1 and sorted(pats) == ["Err", "Ok"]:
+            x, tx = self.expr(scrut[2][0], env)
+            if tx != "packet":
+                raise Untranslatable("try_send_packet of " + tx)
+            _, a = arm("Ok")
+            ev, b = arm("Err", "perr")
+            return "%smatch s.ifaceSend %s with\n%s| (s, .ok _) =>\n%s\n%s| (s, .error %s) =>\n%s" % (ind, x, ind, a, ind, ev, b)
+        if scrut == ("call", ("path", ["self", "interface", "try_get_packet"]), []) and sorted(pats) == ["Err", "Ok"]:
+            pv, a = arm("Ok", "packet")
+            ev, b = arm("Err", "iferr")
+            return "%smatch s.ifaceGet with\n%s| (s, .ok %s) =>\n%s\n%s| (s, .error %s) =>\n%s" % (ind, ind, pv, a, ind, ev, b)
+        if scrut[0] == "path" and len(scrut[1]) == 1 and env.get(scrut[1][0], (None, None))[1] == "iferr" and sorted(pats) == ["InterfaceError::NoPacketReceived", "_"]:
+            v = env[scrut[1][0]][0]
+            _, a = arm("InterfaceError::NoPacketReceived")
+            env2 = dict(env)
+            env2[scrut[1][0]] = ("t", "iferr_other")
+            b = self.stmts(pats["_"][1] + rest, env2, ind + "  ")
+            return "%smatch %s with\n%s| .noPacket =>\n%s\n%s| .other t =>\n%s" % (ind, v, ind, a, ind, b)
+        if scrut[0] == "call" and scrut[1] == ("path", ["self", "handlers", "remove"]) and len(scrut[2]) == 1 and sorted(pats) == ["None", "Some"]:
+            x, tx = self.expr(scrut[2][0], env)
+            if tx != "u32":
+                raise Untranslatable("remove of " + tx)
+            _, a = arm("None")
+            _, b = arm("Some")
+            return "%smatch s.removeKey %s with\n%s| (s, false) =>\n%s\n%s| (s, true) =>\n%s" % (ind, x, ind, a, ind, b)
+        raise Untranslatable("match")
+
+    def stmts(self, ss, env, ind):
+        if not ss:
+            raise Untranslatable("fell off the end")
+        st, rest = ss[0], ss[1:]
+        k = st[0]
+        if k in ("return", "tail"):
+            if k == "tail" and rest and st[1][0] == "match":
+                return self.match(st[1], env, ind, rest)
+            return self.result(st[1], env, ind)
+        if k == "do":
+            e = st[1]
+            if e[0] == "match":
+                return self.match(e, env, ind, rest)
+            if e[0] == "call" and e[1] == ("path", ["self", "handle_packet"]) and len(e[2]) == 2:
+                x, tx = self.expr(e[2][0], env)
+                b, tb = self.expr(e[2][1], env)
+                if (tx, tb) != ("packet", "bool"):
+                    raise Untranslatable("handle_packet arguments")
+                return "%slet s := s.dispatch %s %s\n%s" % (ind, x, b, self.stmts(rest, env, ind))
+            raise Untranslatable("statement")
+        if k == "if" and st[1][0] == "cond":
+            c, tc = self.expr(st[1][1], env)
+            if tc != "bool":
+                raise Untranslatable("condition")
+            a = self.stmts(st[2] + rest, env, ind + "  ")
+            b = self.stmts((st[3] or []) + rest, env, ind + "  ")
+            return "%sif %s then\n%s\n%selse\n%s" % (ind, c, a, ind, b)
+        raise Untranslatable("statement " + k)
+
+
+def translate_protocol(src):
+    """returns (lean text of Generated/ProtocolFns.lean, [names not translated])"""
+    fns = protocol_fns(src)
+    out, missing = [], []
+    tr = ProtoTranslator()
+
+    def emit(lean_name, sig, rust_name, params, env, fallback, doc):
+        try:
+            if rust_name not in fns or fns[rust_name][0] != params:
+                raise Untranslatable("signature")
+            body = tr.stmts(Parser(tokenize(fns[rust_name][1])).block(), env, "  ")
+            out.append("/-- %s — translated from `Protocol::%s` in src/protocol.rs -/\ndef %s %s :=\n%s\n" % (doc, rust_name, lean_name, sig, body))
+        except (Untranslatable, KeyError, TypeError, IndexError) as ex:
+            missing.append(rust_name)
+            out.append("/-- `Protocol::%s` could not be translated on this run (%s): this is the hand-written model's definition -/\ndef %s %s :=\n  %s\n"
+                       % (rust_name, str(ex).replace("-/", ""), lean_name, sig, fallback))
+
+    emit("tick", "(s : Proto) : Proto × Except PErr Unit", "tick", "&mutself", {}, "s.tick", "`self` is `s` (rebound after every effect)")
+    emit("sendPacket", "(s : Proto) (packet : Packet) : Proto × Except PErr Unit", "send_packet", "&mutself,packet:&Packet", {"packet": ("packet", "packet")},
+         "s.sendPacket packet", "`self` is `s`")
+    emit("removeHandler", "(s : Proto) (id : Nat) : Proto × Except PErr Unit", "remove_packet_handler", "&mutself,id:u32", {"id": ("id", "u32")},
+         "s.remove id", "`self` is `s`")
+    # get_next_handler_id: `let mut x = 0; for id in self.handlers.keys() { if x == *id { x += 1; } } return x;` is a fold over the keys
+    try:
+        if "get_next_handler_id" not in fns or fns["get_next_handler_id"][0] != "&self":
+            raise Untranslatable("signature")
+        b = Parser(tokenize(fns["get_next_handler_id"][1])).block()
+        if not (len(b) == 3 and b[0][0] == "letmut" and b[0][2][0] == "num" and b[1][0] == "for" and b[1][2] == ("call", ("path", ["self", "handlers", "keys"]), [])
+                and b[2][0] in ("return", "tail") and b[2][1] == ("path", [b[0][1]])):
+            raise Untranslatable("shape of get_next_handler_id")
+        x, v, body = b[0][1], b[1][1], b[1][3]
+        if not (len(body) == 1 and body[0][0] == "if" and body[0][3] is None and body[0][1][0] == "cond" and body[0][1][1][0] == "cmp" and body[0][1][1][1] == "=="
+                and sorted([body[0][1][1][2], body[0][1][1][3]]) == sorted([("path", [x]), ("path", [v])])
+                and body[0][2] == [("addassign", ("path", [x]), ("num", 1))]):
+            raise Untranslatable("loop body of get_next_handler_id")
+        out.append("/-- translated from `Protocol::get_next_handler_id` in src/protocol.rs (the loop over the ordered keys is a fold; `u32` ids are `Nat`s) -/\n"
+                   "def nextHandlerId (s : Proto) : Nat :=\n  (s.handlers.map Prod.fst).foldl (fun %s %s => if %s = %s then %s + 1 else %s) %d\n" % (x, v, x, v, x, x, b[0][2][1]))
+    except (Untranslatable, KeyError, TypeError, IndexError) as ex:
+        missing.append("get_next_handler_id")
+        out.append("/-- `Protocol::get_next_handler_id` could not be translated on this run (%s): this is the hand-written model's definition -/\n"
+                   "def nextHandlerId (s : Proto) : Nat :=\n  nextId (s.handlers.map Prod.fst)\n" % str(ex).replace("-/", ""))
+    text = ("import RossModel.Protocol\n"
+            "/-! GENERATED by bin/extract (bin/rust2lean.py) from src/protocol.rs of the repository under verification — do not edit.\n"
+            "Every run of a check regenerates this file from /repo's working tree before building the theorems. -/\n"
+            "namespace Ross.Src\nopen Ross\n\n" + "\n".join(out) +
+            "\n/-- functions the translator could not translate on this run (they fall back to the model's definitions) -/\n"
+            "def protocolNotTranslated : List String := [" + ", ".join('"%s"' % m for m in missing) + "]\n\nend Ross.Src\n")
+    return text, missing
+
+
 if __name__ == "__main__":
     import sys
     src = open(sys.argv[1] if len(sys.argv) > 1 else "/repo/src/packet.rs").read()
     i = src.find("#[cfg(test)]")
     t, m = translate(src if i < 0 else src[:i])
+    print(t)
+    print("-- not translated:", m, file=sys.stderr)
+    psrc = open("/repo/src/protocol.rs").read()
+    t, m = translate_protocol(psrc)
     print(t)
     print("-- not translated:", m, file=sys.stderr)
